@@ -194,7 +194,7 @@ func init() {
 	regV("Quiesce", func(g *G, a []Value) Value {
 		r := g.run
 		r.quiesceWait = true
-		g.schedPoint(&Op{desc: "quiesce", enabled: func() bool { return false }})
+		g.schedPoint(&Op{desc: "quiesce", isQuiesce: true, enabled: func() bool { return false }})
 		return nil
 	})
 	regV("Crashed", func(g *G, a []Value) Value { return Bool{C: g.run.crashed != ""} })
